@@ -930,22 +930,39 @@ fn c07(case: &Case, ctx: &Ctx, rpt: &mut Report, rng: &mut Rng, stream: &ExprStr
     if rng.chance(1, 2) && case::guarded(|| Glob::new(&other2).is_ok()) == Some(true) {
         exprs.push(&other2);
     }
+    // One case in eight: the empty pattern is a member too, at a random position.
+    if rng.chance(1, 8) {
+        let at = rng.below(exprs.len() + 1);
+        exprs.insert(at, "");
+    }
     let globs: Vec<Glob> = exprs.iter().filter_map(|e| Glob::new(e).ok()).collect();
     if globs.len() != exprs.len() {
         return;
     }
     let from_text: Option<Any> = guarded(|| wax::any(exprs.iter().copied()).ok()).flatten();
     let from_globs: Option<Any> = guarded(|| wax::any(globs.clone()).ok()).flatten();
+    // Nested: the members in two or more consecutive groups of random sizes, each a combinator
+    // (built alternately from compiled globs and from text), combined by an outer combinator.
+    let groups = random_groups(rng, exprs.len());
     let nested: Option<Any> = guarded(|| {
         let mut inner: Vec<Result<Any, wax::BuildError>> = Vec::new();
-        inner.push(wax::any([globs[0].clone()]));
-        if globs.len() > 1 {
-            inner.push(wax::any(exprs[1..].iter().copied()));
+        let mut at = 0;
+        for (k, n) in groups.iter().enumerate() {
+            if k % 2 == 0 {
+                inner.push(wax::any(globs[at..at + n].iter().cloned()));
+            }
+            else {
+                inner.push(wax::any(exprs[at..at + n].iter().copied()));
+            }
+            at += n;
         }
         wax::any(inner).ok()
     })
     .flatten();
     let mut paths = case.paths.clone();
+    if !paths.iter().any(|p| p.is_empty()) {
+        paths.push(String::new());
+    }
     for (e, g) in exprs.iter().zip(globs.iter()).skip(1) {
         for p in paths_for(e, g, rng, &budget) {
             if !paths.contains(&p) {
